@@ -35,6 +35,8 @@ struct MSrc {
     queue: VecDeque<u8>,
     senders: u32,
     closed_delivered: bool,
+    stream_ended: bool,
+    stream_polled: bool,
     // timer
     deadline: Option<i64>,
     dl_range: Option<(i64, i64)>,
@@ -170,6 +172,9 @@ pub struct Facts {
     pub tasks_scheduled: u32,
     pub tasks_scheduled_in_cb: u32,
     pub task_wakes: u32,
+    pub stream_pushes: u32,
+    pub stream_items: u32,
+    pub stream_ends: u32,
     pub task_polls: u32,
     pub adapters_given: u32,
     pub wakeups: u32,
@@ -306,6 +311,7 @@ fn kind_name(k: &Kind) -> &'static str {
         Kind::Timer { .. } => "timer",
         Kind::Gen { .. } => "gen",
         Kind::Exec => "exec",
+        Kind::Stream => "stream",
         Kind::BadGen { .. } => "badgen",
         Kind::Comp { .. } => "comp",
         Kind::Probe { .. } => "probe",
@@ -1012,6 +1018,22 @@ impl Monitor {
                 None
             }
             ROp::DropScheduler { .. } => None,
+            ROp::StreamPush { src, val } => {
+                if !evs.is_empty() {
+                    return viol("C07.interference", &["C07", "C01"], format!("feeding stream #{src} called {:?} on source #{}", evs[0].kind, evs[0].src));
+                }
+                let m = &mut self.srcs[src];
+                m.queue.push_back(val);
+                m.pings = 1;
+                self.facts.stream_pushes += 1;
+                None
+            }
+            ROp::StreamEnd { src } => {
+                let m = &mut self.srcs[src];
+                m.stream_ended = true;
+                m.pings = 1;
+                None
+            }
             ROp::Adapt { fd, live_before, regular_file, nonblocking_before, .. } => {
                 let Some((a, nb_after)) = self.pending_adapt.take() else { return None };
                 if !self.known_fds.contains(&fd) {
@@ -1170,6 +1192,32 @@ impl Monitor {
                         return viol("C01.cause", &["C01", "C04"], format!("channel #{s} delivered Msg({v}) but the oldest undelivered message is {other:?}"));
                     }
                 }
+            }
+            Payload::Item(v) => {
+                if m.closed_delivered {
+                    return viol("C06.after_remove", &["C06", "C01"], format!("stream #{s} delivered Item({v}) after its end of stream"));
+                }
+                match m.queue.pop_front() {
+                    Some(x) if x == *v => {}
+                    other => {
+                        return viol("C01.cause", &["C01"], format!("stream #{s} delivered Item({v}) but the oldest undelivered item is {other:?}"));
+                    }
+                }
+                self.facts.stream_items += 1;
+            }
+            Payload::StreamEnd => {
+                if m.closed_delivered {
+                    return viol("C06.after_remove", &["C06", "C01"], format!("stream #{s} delivered its end of stream twice"));
+                }
+                if !m.stream_ended || !m.queue.is_empty() {
+                    return viol(
+                        "C01.cause",
+                        &["C01"],
+                        format!("stream #{s} delivered end of stream although the stream has {} (items undelivered: {})", if m.stream_ended { "ended" } else { "not ended" }, m.queue.len()),
+                    );
+                }
+                m.closed_delivered = true;
+                self.facts.stream_ends += 1;
             }
             Payload::Closed => {
                 if m.closed_delivered {
@@ -1358,6 +1406,7 @@ impl Monitor {
                     any
                 }
                 Kind::Exec | Kind::BadGen { .. } => false,
+                Kind::Stream => m.pings > 0 && !m.closed_delivered && (!m.queue.is_empty() || m.stream_ended),
                 Kind::Comp { .. } => {
                     let mut any = false;
                     for c in m.children.iter_mut() {
@@ -1419,11 +1468,13 @@ impl Monitor {
                     src_drops: 0,
                     cb_drops: 0,
                     alive: true,
-                    pings: 0,
+                    pings: if matches!(info.kind, Kind::Stream) { 1 } else { 0 },
                     handles: 1,
                     queue: VecDeque::new(),
                     senders: 1,
                     closed_delivered: false,
+                    stream_ended: false,
+                    stream_polled: false,
                     deadline: info.deadline_ns,
                     dl_range: None,
                     dl_d: 0,
@@ -1671,6 +1722,19 @@ impl Monitor {
                 }
                 None
             }
+            Ev::StreamPoll { src } => {
+                let s = *src;
+                if self.cur_proc != Some(s) {
+                    return viol("C01.live", &["C01"], format!("stream of source #{s} polled outside its own event processing"));
+                }
+                let m = &mut self.srcs[s];
+                if !m.stream_polled {
+                    // the wake-up that led here is consumed; anything fed from now on wakes the source again
+                    m.stream_polled = true;
+                    m.pings = 0;
+                }
+                None
+            }
             Ev::Proc { src, key, .. } => {
                 if let Some(v) = self.close_win() {
                     return Some(v);
@@ -1699,6 +1763,7 @@ impl Monitor {
                 }
                 self.cur_proc = Some(s);
                 self.cur_proc_key = *key;
+                self.srcs[s].stream_polled = false;
                 let m = &self.srcs[s];
                 if m.taint.is_none() && m.st != St::Created && m.st != St::Rejected && key_src(*key) != key_src(m.key) {
                     return viol(
@@ -1846,6 +1911,22 @@ impl Monitor {
             Ev::ProcRet { src, ret, t_ns } => {
                 let s = *src;
                 self.cur_proc = None;
+                if let Kind::Stream = self.srcs[s].kind {
+                    let m = &self.srcs[s];
+                    // C06: the end of the stream is one of the ways a source leaves the loop
+                    if m.stream_polled && m.taint.is_none() && m.closed_delivered && m.st == St::Inserted && *ret != PRet::Remove && *ret != PRet::Err {
+                        return viol("C06.stream_end", &["C06"], format!("stream #{s} delivered its end of stream but asked for {ret:?} instead of its removal"));
+                    }
+                    // the stream is polled until it is pending: a wake-up that leaves ready items behind loses them
+                    // (nothing will wake the source for them again)
+                    if m.stream_polled && m.taint.is_none() && *ret != PRet::Err && !m.closed_delivered && (!m.queue.is_empty() || m.stream_ended) {
+                        return viol(
+                            "C02.stream_drain",
+                            &["C02"],
+                            format!("stream #{s} finished processing with {} ready item(s) undelivered (ended: {})", m.queue.len(), m.stream_ended),
+                        );
+                    }
+                }
                 // close the duration-reschedule range: the timer evaluated Instant::now() + d between CbEnd and ProcRet
                 if let Some((lo, hi)) = self.srcs[s].dl_range {
                     if hi == i64::MAX {
@@ -1888,6 +1969,7 @@ impl Monitor {
                                 (Kind::Timer { .. }, _) => "timer_drop_or_post_remove",
                                 (Kind::Ping, _) if m.handles == 0 => "ping_closed",
                                 (Kind::Chan { .. }, _) if m.closed_delivered => "channel_closed",
+                                (Kind::Stream, _) if m.closed_delivered => "stream_ended",
                                 _ => "post_action_remove",
                             };
                             m.how_removed = Some(how);
@@ -2432,7 +2514,7 @@ impl Monitor {
         for m in self.srcs.iter() {
             if m.st == St::Inserted && m.enabled {
                 match &m.kind {
-                    Kind::Ping | Kind::Chan { .. } | Kind::Gen { .. } | Kind::Exec => want_keys.push(m.key),
+                    Kind::Ping | Kind::Chan { .. } | Kind::Gen { .. } | Kind::Exec | Kind::Stream => want_keys.push(m.key),
                     Kind::Probe { .. } => {
                         for i in 0..m.sub_pings.len() as u64 {
                             want_keys.push(m.key + i);
